@@ -175,6 +175,9 @@ func main() { rt.Sink1(mk(rt.Source1())()()) }`,
 	"rec.ycomb": `type Y func(Y) func(string) string
 func main() { y := Y(func(self Y) func(string) string { return func(s string) string { if rt.Cond() { return s }; return self(self)(s) } }); rt.Sink1(y(y)(rt.Source1())) }`,
 	"defer.loop": `func main() { s := rt.Source1(); for rt.Cond() { defer rt.Sink1(s) } }`,
+	"defer.loopTwo": `func main() { s := rt.Source1(); for rt.Cond() { defer rt.Sink1(s); if rt.Cond() { return }; defer rt.Sink3(s) } }`,
+	"defer.loopBranches": `func main() { s := rt.Source1(); for rt.Cond() { if rt.Cond() { defer rt.Sink1(s) } else { defer rt.Sink3(s) } } }`,
+	"defer.loopNested": `func main() { s := rt.Source1(); for rt.Cond() { defer rt.Sink1(s); for rt.Cond() { defer rt.Sink3(s) } } }`,
 	"defer.loopClosure": `func main() { s := rt.Source1(); for rt.Cond() { defer func() { rt.Sink1(s) }() } }`,
 	"defer.recursive": `func f(s string, n int) { defer rt.Sink1(s); if n > 0 { f(s, n-1) } }
 func main() { f(rt.Source1(), 2) }`,
